@@ -80,9 +80,17 @@ def plant_reified(rng, node, rm, counter=None):
     counter = counter if counter is not None else [0]
     v, br = node
     out = []
+    unamb = [x for x in rm.reifications if rm.unambiguous(x[0]) and rm.first_reification(x[0]) == tuple(x[1:])]
     for r, t in br:
         if isinstance(t, tuple):
             t = plant_reified(rng, t, rm, counter)
+            if unamb and rng.random() < 0.3:
+                # the target itself becomes a full relation node (so a reified relation can be an
+                # argument of another one), sometimes with itself as its second argument
+                _, c2, s2, t2 = rng.choice(unamb)
+                counter[0] += 1
+                rq = f'rq{counter[0]}'
+                t = (rq, [('/', c2), (s2, t), (t2, rq if rng.random() < 0.25 else rng.choice(['7', '"s"', 'k']))])
         base = r.partition('~')[0]
         fr = rm.first_reification(base) if r != '/' else None
         if fr and rm.unambiguous(base) and not rm.inverted(base) and rng.random() < 0.6 and t is not None:
@@ -110,8 +118,9 @@ def build(ctx, p):
         # explicit reified relations in the *text* (so that dereify_edges has work to do),
         # written from any node - also from the reified node itself - and then re-topped
         node = T.rand_tree(rng, rm, roles=R_AMR, concepts=CONCEPTS, p_aln=0.2)
-        if p['i'] % 12 == 11:
+        if rng.random() < 0.5:
             node = plant_reified(rng, node, rm)
+            ctx.count('planted_reified_relations')
         if not _trees.wellformed(node, rm):
             return None
         ok, g0 = ctx.call(layout.interpret, Tree(node), model, clause='pre-interpret')
